@@ -354,6 +354,8 @@ def call_requests(calls, by_array, rng, want_blocks=True):
                     continue
                 axis = kw.get("axis", 0)
                 axis = 0 if axis is None else int(axis)
+                if axis < 0:
+                    continue   # repeat never normalises its axis (finding repeat-negative-axis): the model covers axis >= 0
                 add(fn, "repeat|%s|%d|%d" % (enc_chunks(src[0].chunks), int(a[1]), axis), res)
             elif fn == "_rechunk":
                 x, copy = a[0], a[1]
@@ -857,7 +859,13 @@ def classify_mismatches(calls, mismatches):
     zero_site = set()
     for c in calls:
         fn, a, kw, res_ = c["fn"], c["args"], c["kwargs"], c["result"]
-        if fn == "stack":
+        if fn == "repeat":
+            # repeat compares `i == axis` with the axis as given: a negative axis never matches, so the block is
+            # neither taken from block `coords // repeats` nor sliced
+            ax = kw.get("axis", 0)
+            if isinstance(ax, int) and ax < 0 and isinstance(res_, ArrayMeta):
+                site[res_.name] = "repeat-negative-axis"
+        elif fn == "stack":
             # the repaired stack rechunks operands chunked differently from the first -- but rechunk returns zero-size
             # arrays unchanged
             src = [s for s in (source_metas(c["raw_result"]) or []) if s is not None]
@@ -1056,6 +1064,8 @@ def oracle_programs(ctx, n, tag="oracle", programs=None):
 
 
 TRIGGERS = {
+    "repeat-negative-axis": {"inputs": [{"shape": [3, 2], "chunks": [2, 2], "dtype": "int64", "data": "arange", "salt": 0}],
+                             "ops": [{"op": "repeat", "family": "repeat", "in": [0], "params": {"repeats": 2, "axis": -2}}], "outputs": [1]},
     "zero-size-rechunk-skipped": {"inputs": [{"shape": [2, 0], "chunks": [1, 1], "dtype": "float64", "data": "arange", "salt": 0},
                                              {"shape": [2, 0], "chunks": [2, 1], "dtype": "float64", "data": "arange", "salt": 1}],
                                   "ops": [{"op": "add", "family": "binary", "in": [0, 1], "params": {"_k": "binary"}}], "outputs": [2]},
